@@ -2,7 +2,9 @@ import Driver.Proto
 import Ibx.Model.Pop3
 /-
   mode "pop3": one POP3 session of Ibx.Model.Pop3 at a time.
-    new                                  -> ok                      (fresh session; the store table is kept empty)
+    new [tls=<0|1>] [force=<0|1>] [same=1] -> ok                    (fresh session; the store table is kept empty.  tls / force: config.POP3.TLSEnabled /
+                                                                     ForceTLS of the server.  same=1: the session runs on the SAME server process as the
+                                                                     previous one — with `tlsState` per server (Model.Pop3.sourceScope) it finds the flag that one left)
     store <boxhex> <msgs>                -> ok                      (msgs = `_` | idhex:size:srchex,… : what GetMessages(box) returns from now on)
     line <hex> [send=0]                  -> ok ph=<A|T|Q> u=<userhex> cls=<+|-> p=<hexlist> [m=<hexlist>] rm=<hexlist>  | panic | badstate | ended
     end <eof|readerr>                    -> end=<…> n=<#replies incl. greeting> rm=<hexlist> ph=<…>   (re-runs `session` over the recorded events)
@@ -10,12 +12,19 @@ import Ibx.Model.Pop3
     unsent                               -> ok      (C13End: the reply to the last `line` could not be written; same as having sent it with send=0)
     fault <idhex> <none|open|read:K>     -> ok      (C13End: Source() of that message fails / its reader fails after K bytes; `line` then
                                                      adds ft=<dot|doterr|err> fl=<hexlist> when the reply is a fault reply)
+    wire pre=<hex> bufn=<n> inner=<hex|none> [term=<eof|readerr>]
+                                         -> end=<…> n=<#replies incl. greeting> seq=<one of + - per reply, S for the accepted STLS> rm=<hexlist> ph=<…> tl=<0|1>
+                                            (C13Tls: `sessionWire` from the state `new` set up, against the current store table; the TLS library is
+                                             instantiated as: the handshake succeeds iff no stray byte reaches tls.Server before it)
+  `line` answers carry tl=<0|1> (tlsState != nil afterwards); the accepted STLS is `cls=+ p=_ stls=1`.
 -/
 namespace Driver.Pop3
 open Ibx Ibx.Model.Pop3 Driver
 
 structure DSt where
   st : St := St.init
+  cfg : Cfg := {}
+  srv : Bool := false          -- the server's tlsState is non-nil when this session starts
   table : List (Bytes × List Msg) := []
   evs : List Ev := []          -- reversed
   faults : List (Bytes × SrcFault) := []
@@ -61,10 +70,14 @@ def renderReply : Reply → String
   | .okRetr z ls => s!"cls=+ p={hexL [dec z]} m={hexL ls}"
   | .okTop ls => s!"cls=+ p=_ m={hexL ls}"
   | .capa ls => s!"cls=+ p=_ m={hexL ls}"
+  | .stlsBegin => "cls=+ p=_ stls=1"
 
 def endS : End → String
   | .quit => "quit" | .eof => "eof" | .readError => "readerr" | .sendError => "senderr"
-  | .panic => "panic" | .badState => "badstate"
+  | .panic => "panic" | .badState => "badstate" | .tlsFail => "tlsfail"
+
+def clsChar : Reply → String
+  | .err => "-" | .stlsBegin => "S" | _ => "+"
 
 def faultFn (t : List (Bytes × SrcFault)) : Bytes → SrcFault :=
   fun i => ((t.find? (·.1 == i)).map (·.2)).getD .none
@@ -82,7 +95,22 @@ def tailS : Tail → String
 def handle (d : DSt) (toks : List String) : DSt × String :=
   let (ps, kv) := splitKV toks
   match ps with
-  | ["new"] => ({}, "ok")
+  | ["new"] =>
+    let c : Cfg := { tlsEnabled := kv.get? "tls" == some "1", forceTLS := kv.get? "force" == some "1", scope := sourceScope }
+    let srv := if kv.get? "same" == some "1" then serverTlsAfter d.cfg d.srv d.st else false
+    ({ st := St.start c srv, cfg := c, srv := srv }, "ok")
+  | ["wire"] =>
+    match (kv.get? "pre") >>= Bytes.ofHex, (kv.get? "bufn") >>= String.toNat?, kv.get? "inner" with
+    | some pre, some bufn, some innerS =>
+      let inner? : Option (Option Bytes) := if innerS == "none" then some none else (Bytes.ofHex innerS).map some
+      match inner? with
+      | none => (d, "bad-op")
+      | some inner =>
+        let term : Term := if kv.get? "term" == some "readerr" then .readError else .eof
+        let w : Wire := { pre := pre, buffered := bufn, tlsOpen := fun raw => if raw.isEmpty then inner else none }
+        let tr := sessionWire d.cfg d.srv term (storeFn d.table) w
+        (d, s!"end={endS tr.ending} n={tr.replies.length} seq={String.join (tr.replies.map clsChar)} rm={hexL tr.removed} ph={phaseS tr.final.phase} tl={if tr.final.tls then 1 else 0}")
+    | _, _, _ => (d, "bad-op")
   | ["store", box, msgs] =>
     match Bytes.ofHex box, parseMsgs msgs with
     | some b, some ms => ({ d with table := (b, ms) :: d.table.filter (·.1 != b) }, "ok")
@@ -113,7 +141,7 @@ def handle (d : DSt) (toks : List String) : DSt × String :=
             | none => ""
             | some fr => s!" ft={tailS fr.tail} fl={hexL fr.lines}"
           ({ d with st := s', evs := ev :: d.evs, ended := !sendOk },
-           s!"ok ph={phaseS s'.phase} u={Bytes.toHex s'.user} {renderReply r} rm={hexL rm}" ++ fs)
+           s!"ok ph={phaseS s'.phase} u={Bytes.toHex s'.user} {renderReply r} rm={hexL rm} tl={if s'.tls then 1 else 0}" ++ fs)
   | ["end", t] =>
     let term? : Option Term := if t == "eof" then some .eof else if t == "readerr" then some .readError else none
     match term? with
@@ -126,7 +154,7 @@ def handle (d : DSt) (toks : List String) : DSt × String :=
         let bye := match x.bye with | none => "-" | some b => Bytes.toHex (byeText b)
         (d, s!"end={endS x.base.ending} n={x.base.replies.length} rm={hexL x.base.removed} ph={phaseS x.base.final.phase} bye={bye}")
     | some term =>
-      let tr := session term d.evs.reverse
+      let tr := sessionTls d.cfg d.srv term d.evs.reverse
       (d, s!"end={endS tr.ending} n={tr.replies.length} rm={hexL tr.removed} ph={phaseS tr.final.phase}")
   | _ => (d, "bad-op")
 
